@@ -107,12 +107,60 @@ class Convert:
         if r.startswith("FileTypes."):
           return r.split(".")[-1]
       return None
+    def table_members(test):
+      """`var in TABLE` with TABLE a module-level dict keyed by FileTypes members -> (TABLE name, {member: value expression})"""
+      if isinstance(test, ast.Compare) and len(test.ops) == 1 and isinstance(test.ops[0], ast.In) and unparse(test.left) == var and isinstance(test.comparators[0], (ast.Name, ast.Dict)):
+        c0 = test.comparators[0]
+        d = ix.deref(f.module, c0, func=f) if isinstance(c0, ast.Name) else c0
+        if isinstance(d, ast.Dict) and d.keys and all(k is not None and unparse(k).startswith("FileTypes.") for k in d.keys):
+          return unparse(c0), {unparse(k).split(".")[-1]: v for k, v in zip(d.keys, d.values)}
+      return None
+
+    def specialise(body, tname, value):
+      """the branch body for one member: TABLE[var] replaced by that member's row, rows unpacked into locals read through"""
+      from ..core import clone as _clone
+
+      class _T(ast.NodeTransformer):
+        def visit_Subscript(self, n):
+          self.generic_visit(n)
+          if unparse(n.value) == tname and unparse(n.slice) == var:
+            return _clone(value)
+          return n
+      out = [_T().visit(_clone(st)) for st in body]
+      binds = {}
+      for st in out:
+        for n in ast.walk(st):
+          if isinstance(n, ast.Assign) and len(n.targets) == 1 and isinstance(n.targets[0], ast.Tuple) and isinstance(n.value, ast.Tuple) and len(n.targets[0].elts) == len(n.value.elts):
+            for t_, v_ in zip(n.targets[0].elts, n.value.elts):
+              if isinstance(t_, ast.Name):
+                binds[t_.id] = v_
+          elif isinstance(n, ast.Assign) and len(n.targets) == 1 and isinstance(n.targets[0], ast.Name) and isinstance(n.value, (ast.Name, ast.Attribute)) and n.targets[0].id not in binds:
+            pass
+
+      class _R(ast.NodeTransformer):
+        def visit_Name(self, n):
+          if isinstance(n.ctx, ast.Load) and n.id in binds:
+            return _clone(binds[n.id])
+          return n
+      out = [_R().visit(st) for st in out]
+      for st in out:
+        ast.fix_missing_locations(st)
+        for par_ in ast.walk(st):
+          for ch_ in ast.iter_child_nodes(par_):
+            ch_._parent = par_
+      return out
+    ix, f = self.ix, self.f
     for st in self.body:
-      if isinstance(st, ast.If) and member(st.test):
+      if isinstance(st, ast.If) and (member(st.test) or table_members(st.test)):
         out, cur = [], st
         while True:
-          out.append((member(cur.test), cur.body))
-          if len(cur.orelse) == 1 and isinstance(cur.orelse[0], ast.If) and member(cur.orelse[0].test):
+          tm = table_members(cur.test)
+          if tm is not None:
+            for mname, val in tm[1].items():
+              out.append((mname, specialise(cur.body, tm[0], val)))
+          else:
+            out.append((member(cur.test), cur.body))
+          if len(cur.orelse) == 1 and isinstance(cur.orelse[0], ast.If) and (member(cur.orelse[0].test) or table_members(cur.orelse[0].test)):
             cur = cur.orelse[0]
           else:
             out.append((None, cur.orelse))
@@ -298,13 +346,7 @@ def check_config(ctx):
   ti, tf = cv.top(si), cv.top(sf)
   gi, gf = cv.body[ti], cv.body[tf]
   a = cv.args
-  cond = (vi == vf and ti < tf and isinstance(gi, ast.If) and isinstance(gf, ast.If) and unparse(gi.test) == f"{a}.config is not None" and unparse(gf.test) == f"{a}.config_file is not None"
-          and not gi.orelse and not gf.orelse)
-  replaces = isinstance(sf.value, ast.Call) and unparse(sf.value.func) == "json.load" and not any(isinstance(x, ast.Name) and x.id == vi for x in ast.walk(sf.value))
-  ctx.check(replaces, "CONFIG", f"{conv.qualname}|the configuration file replaces the inline configuration", ctx.where(conv.module, sf), f"`{vi} = json.load(...)`",
-            f"`{short(sf, 80)}` combines the file with the inline configuration instead of replacing it: sections given only inline still take effect although a configuration file is given")
-  ctx.check(cond, "CONFIG", f"{conv.qualname}|the configuration file overrides the inline configuration", ctx.where(conv.module, sf), f"`{vi}` assigned from --config, then unconditionally re-assigned from --config_file when given",
-            "--config_file must be applied after --config into the same variable, each under its own `is not None` test, so that the file wins when both are given")
+  # (which of the two sources wins is decided by evaluation: FIN-config below)
   # the file that is loaded is the one named by --config_file
   w = [n for n in ast.walk(gf) if isinstance(n, ast.With)]
   opened = w and unparse(w[0].items[0].context_expr.args[0]) == f"{a}.config_file" if w and isinstance(w[0].items[0].context_expr, ast.Call) and w[0].items[0].context_expr.args else False
@@ -599,7 +641,7 @@ def check_order_and_output(ctx):
       mode = unparse(c.args[1]) if len(c.args) > 1 else next((unparse(k.value) for k in c.keywords if k.arg == "mode"), "'r'")
       if (fn == "open" and any(ch_ in mode for ch_ in "wax+")) or (isinstance(c.func, ast.Attribute) and c.func.attr in ("write", "write_text", "write_bytes", "touch")) or fn in ("Path", "pathlib.Path"):
         opens.append(c)
-  ctx.floor("OUT", "statements that open the output path", len(opens), 3)
+  ctx.floor("OUT", "statements that open the output path", len(opens), 2)
   for c in opens:
     nid = cfg.stmt_node_containing(c)
     ok = False
@@ -609,8 +651,8 @@ def check_order_and_output(ctx):
         for n in ast.walk(an):
           if isinstance(n, ast.Call):
             r = ix.resolve(conv.module, n.func, func=conv)
-            if isinstance(r, FuncInfo) and r.name == "from_model":
-              ok = True
+            if (isinstance(r, FuncInfo) and r.name == "from_model") or (not isinstance(r, FuncInfo) and isinstance(n.func, ast.Attribute) and n.func.attr == "from_model"):
+              ok = True       # (a writer module held in a local - a row of a dispatch table - is called by the same name)
     ctx.check(ok and cv.top(c) == pos["write"], "OUT", f"{conv.qualname}|{short(c, 50)} after the writer produced the document", ctx.where(conv.module, c), "dominated by <format>.writer.from_model(...) inside the final dispatch",
               f"`{short(c, 50)}` opens the output file before the writer has produced the document (or outside the final dispatch): a failing or unsupported conversion leaves an empty or partial output file")
 
@@ -642,9 +684,28 @@ def check_decoders(ctx):
           ctx.check(r is not None, "TAB-decoders", f"{c.qualname}.{name}|decoder {d} resolves", ctx.where(c.module, v), "resolved", f"decoder `{d}` of field `{name}` cannot be resolved")
   ctx.floor("TAB-decoders", "configuration fields with a decoder", n, 10)
   p = ix.func("ttconv.config:ModuleConfiguration.parse")
-  t = unparse(p.node)
-  ctx.check("cls.validate(config_dict)" in t and "decoder.__call__(field_value)" in t.replace("decoder(field_value)", "decoder.__call__(field_value)") and "cls(**kwargs)" in t, "TAB-decoders",
-            f"{p.qualname}|validate, decode every field, construct", ctx.where(p.module, p.node), "validate -> decode -> cls(**kwargs)", "ModuleConfiguration.parse no longer validates, decodes each field with its decoder and constructs the configuration")
+  # parse and the helpers of the class it calls (an extracted per-field function)
+  group = [p]
+  for g in group:
+    for c_ in own_nodes(g.node):
+      if isinstance(c_, ast.Call) and isinstance(c_.func, ast.Attribute) and unparse(c_.func.value) in ("cls", "self") and p.cls is not None:
+        h = ix.lookup_method(p.cls, c_.func.attr)
+        if h is not None and h not in group and h.name not in ("validate", "get_fields", "get_field_default", "name") and len(group) < 4:
+          group.append(h)
+  dictp = p.params[1]
+  validates = any(isinstance(c_, ast.Call) and unparse(c_.func) == "cls.validate" and c_.args and unparse(c_.args[0]) == dictp for c_ in own_nodes(p.node))
+  all_fields = any("get_fields()" in unparse(it) for g in group for n_ in own_nodes(g.node)
+                   for it in ([n_.iter] if isinstance(n_, ast.For) else [x.iter for x in getattr(n_, "generators", [])] if isinstance(n_, (ast.ListComp, ast.DictComp, ast.GeneratorExp, ast.SetComp)) else []))
+  decodes = False
+  for g in group:
+    dvars = {unparse(st.targets[0]) for st in own_nodes(g.node) if isinstance(st, ast.Assign) and 'metadata.get("decoder")' in unparse(st.value).replace("'", '"')}
+    for c_ in own_nodes(g.node):
+      if isinstance(c_, ast.Call) and c_.args and (unparse(c_.func) in dvars or (isinstance(c_.func, ast.Attribute) and c_.func.attr == "__call__" and unparse(c_.func.value) in dvars)):
+        decodes = True
+  constructs = any(isinstance(c_, ast.Call) and unparse(c_.func) == "cls" and any(k.arg is None for k in c_.keywords) for c_ in own_nodes(p.node))
+  ctx.check(validates and all_fields and decodes and constructs, "TAB-decoders",
+            f"{p.qualname}|validate, decode every field, construct", ctx.where(p.module, p.node), "validate -> for every field of get_fields(): decoder(value) -> cls(**values)",
+            f"ModuleConfiguration.parse no longer validates the dictionary ({validates}), visits every field of get_fields() ({all_fields}), applies the field's decoder ({decodes}) and constructs cls(**values) ({constructs})")
 
 
 def check_decoder_probes(ctx):
